@@ -176,6 +176,286 @@ def find_delitem(repo, clsname):
     return bm["__delitem__"], c
 
 
+# ---------------------------------------------------------------------------------------------------------------------------
+# abstract execution of the registries' (name, object) generators: WHAT is iterated, whatever the control-flow shape
+class Sym(tuple):
+    """symbolic value: ('set', A) = container self.A; ('elem', A) = an arbitrary key of self.A; ('item', A, k) = self.A[k];
+    ('items'|'keys'|'values', A) = the corresponding view of self.A."""
+    def __repr__(self):
+        if self[0] == "set":
+            return "self.%s" % self[1]
+        if self[0] == "elem":
+            return "<name in self.%s>" % self[1]
+        if self[0] == "item":
+            return "self.%s[%r]" % (self[1], self[2])
+        return "self.%s.%s()" % (self[1], self[0])
+
+
+def _family(attr):
+    """what one iteration of `for name in self.<attr>: yield name, self._data[name]` yields."""
+    e = Sym(("elem", attr))
+    return [e, Sym(("item", "_data", e))]
+
+
+class GenEval(object):
+    """Runs a registry method that produces (name, object) pairs on abstract containers and returns the stream of yielded values, one
+    per loop (a loop over a container runs once with a symbolic element).  Follows the actual control flow for a CONCRETE type argument,
+    so if/elif chains, early returns, a set picked first and iterated later, dict dispatch, comprehensions, `yield from` and calls to
+    sibling generators (self(T), self.junctions()) all reduce to the same stream.  Anything it cannot follow is an ExtractError."""
+
+    def __init__(self, repo, cls):
+        self.repo = repo
+        self.cls = cls
+        self.methods = repo.methods(cls)
+
+    def stream(self, meth, args=(), kwargs=None, depth=0):
+        """-> list of yielded values, or the string 'raises'."""
+        from ..peval import Evaluator, Obj, Unknown, Raised, Returned
+        from ..src import ExtractError
+        outer = self
+        fn = self.methods.get(meth)
+        if fn is None:
+            raise AnchorError("%s.%s vanished" % (self.cls.name, meth))
+        if depth > 4:
+            raise ExtractError("%s.%s: generator delegation too deep" % (self.cls.name, meth))
+        SELF = Obj("self")
+
+        class Ev(Evaluator):
+            def __init__(ev, env):
+                Evaluator.__init__(ev, env, class_attr=ev._global, call=ev._call, attr=ev._attr)
+                ev.yields = []
+
+            # names that are not locals: classes (compared by identity/equality with the type argument)
+            def _global(ev, name):
+                parts = name.split(".")
+                if parts[-1][:1].isupper() and parts[0] not in ev.env:      # Junction, elements.Junction, wntr.network.elements.Junction
+                    return Obj(parts[-1])
+                raise Unknown("unbound name %s" % name)
+
+            def _attr(ev, base, attr):
+                if base is SELF or (isinstance(base, Obj) and base.name == "self"):
+                    return Sym(("set", attr))
+                return NotImplemented
+
+            def truth(ev, v):
+                if isinstance(v, Sym):
+                    raise Unknown("truth value of %r" % (v,))
+                return Evaluator.truth(ev, v)
+
+            def e_Compare(ev, n):
+                vals = [ev.ev(x) for x in [n.left] + list(n.comparators)]
+                if any(isinstance(v, Sym) for v in vals):
+                    # a container / element / stored object is not None (the store holds no None); anything else about it is unknown
+                    if len(vals) == 2 and isinstance(n.ops[0], (ast.Is, ast.IsNot, ast.Eq, ast.NotEq)) and any(v is None for v in vals) \
+                            and all(v is None or (isinstance(v, Sym) and v[0] != "item") for v in vals):
+                        return isinstance(n.ops[0], (ast.IsNot, ast.NotEq))
+                    raise Unknown("comparison on a symbolic container/element: %s" % unparse(n))
+                return Evaluator.e_Compare(ev, n)
+
+            def e_Dict(ev, n):
+                if any(k is None for k in n.keys):
+                    raise Unknown("dict unpacking")
+                return {ev.ev(k): ev.ev(v) for k, v in zip(n.keys, n.values)}
+
+            def e_JoinedStr(ev, n):
+                return "<text>"
+
+            def e_Subscript(ev, n):
+                b = ev.ev(n.value)
+                if isinstance(n.slice, ast.Slice):
+                    raise Unknown("slice")
+                k = ev.ev(n.slice)
+                if isinstance(b, Sym) and b[0] == "set":
+                    return Sym(("item", b[1], k))
+                if isinstance(b, dict):
+                    if k not in b:
+                        raise Raised(n)          # KeyError
+                    return b[k]
+                if isinstance(b, list) and isinstance(k, int):
+                    return b[k]
+                raise Unknown("subscript %s" % unparse(n))
+
+            def iterate(ev, v, n):
+                if isinstance(v, Sym):
+                    if v[0] in ("set", "keys"):
+                        return [Sym(("elem", v[1]))]
+                    if v[0] == "items":
+                        return [[Sym(("elem", v[1])), Sym(("item", v[1], Sym(("elem", v[1]))))]]
+                    if v[0] == "values":
+                        return [Sym(("item", v[1], Sym(("elem", v[1]))))]
+                    raise Unknown("iteration over %r" % (v,))
+                if isinstance(v, list):
+                    return list(v)
+                if isinstance(v, dict):
+                    return list(v.keys())
+                raise Unknown("iteration over %s" % unparse(n))
+
+            def e_Yield(ev, n):
+                ev.yields.append(ev.ev(n.value) if n.value is not None else None)
+                return None
+
+            def e_YieldFrom(ev, n):
+                ev.yields.extend(ev.iterate(ev.ev(n.value), n.value))
+                return None
+
+            def _comp(ev, n, elt):
+                out = []
+                saved = dict(ev.env)
+
+                def rec(i):
+                    if i == len(n.generators):
+                        out.append(elt())
+                        return
+                    g = n.generators[i]
+                    for item in ev.iterate(ev.ev(g.iter), g.iter):
+                        ev.assign(g.target, item)
+                        if all(ev.truth(ev.ev(c)) for c in g.ifs):
+                            rec(i + 1)
+                rec(0)
+                ev.env = saved
+                return out
+
+            def e_GeneratorExp(ev, n):
+                return ev._comp(n, lambda: ev.ev(n.elt))
+
+            e_ListComp = e_GeneratorExp
+
+            def _call(ev, name, n, _ev):
+                f = n.func
+                if any(isinstance(a, ast.Starred) for a in n.args) or any(k.arg is None for k in n.keywords):
+                    raise Unknown("star arguments: %s" % unparse(n))
+                if isinstance(f, ast.Name) and f.id in ("str", "repr", "type") and f.id not in ev.env:
+                    return "<text>"
+                if isinstance(f, ast.Name) and f.id in ("list", "tuple", "iter") and f.id not in ev.env and len(n.args) == 1 and not n.keywords:
+                    v = ev.ev(n.args[0])
+                    return v if isinstance(v, Sym) else ev.iterate(v, n.args[0])
+                if isinstance(f, ast.Name) and f.id == "zip" and len(n.args) == 2 and not n.keywords:
+                    a, b = [ev.ev(x) for x in n.args]
+                    # zip(self.S, (self._data[k] for k in self.S)) and the like: position-wise pairing of two one-family streams
+                    ia, ib = ev.iterate(a, n.args[0]), ev.iterate(b, n.args[1])
+                    if len(ia) == len(ib):
+                        return [[x, y] for x, y in zip(ia, ib)]
+                    raise Unknown("zip of streams of different shape")
+                args = None
+                if isinstance(f, ast.Name) and f.id == "self":
+                    args = ("__call__",)
+                elif isinstance(f, ast.Attribute):
+                    recv = ev.ev(f.value)
+                    if isinstance(recv, Obj) and recv.name == "self" and f.attr in outer.methods:
+                        args = (f.attr,)
+                    elif isinstance(recv, Sym) and recv[0] == "set" and f.attr in ("items", "keys", "values") and not n.args:
+                        return Sym((f.attr, recv[1]))
+                    elif isinstance(recv, Sym) and recv[0] == "set" and f.attr == "get" and len(n.args) == 1:
+                        return Sym(("item", recv[1], ev.ev(n.args[0])))
+                    elif isinstance(recv, dict) and f.attr == "get" and 1 <= len(n.args) <= 2:
+                        return recv.get(ev.ev(n.args[0]), ev.ev(n.args[1]) if len(n.args) == 2 else None)
+                    elif isinstance(recv, dict) and f.attr in ("items", "keys", "values") and not n.args:
+                        return [list(x) if f.attr == "items" else x for x in getattr(recv, f.attr)()]
+                    elif isinstance(recv, str) and f.attr in ("format", "join"):
+                        return "<text>"
+                if args is not None:
+                    r = outer.stream(args[0], [ev.ev(a) for a in n.args], {k.arg: ev.ev(k.value) for k in n.keywords}, depth + 1)
+                    if r == "raises":
+                        raise Raised(n)
+                    return r
+                return NotImplemented
+
+            def assign(ev, t, v):
+                if isinstance(t, (ast.Tuple, ast.List)) and isinstance(v, Sym):
+                    raise Unknown("unpacking of %r" % (v,))
+                return Evaluator.assign(ev, t, v)
+
+            def stmt(ev, s):
+                if isinstance(s, ast.For):
+                    if s.orelse or any(isinstance(x, (ast.Break, ast.Continue)) for x in walk(s)):
+                        raise Unknown("loop with break/continue/else at line %s" % s.lineno)
+                    for item in ev.iterate(ev.ev(s.iter), s.iter):
+                        ev.assign(s.target, item)
+                        ev.block(s.body)
+                    return
+                if isinstance(s, ast.Assert):
+                    return
+                return Evaluator.stmt(ev, s)
+
+        a = fn.args
+        if a.vararg or a.kwarg or a.kwonlyargs or getattr(a, "posonlyargs", None):
+            raise ExtractError("%s.%s: unsupported signature" % (self.cls.name, meth))
+        params = [x.arg for x in a.args]
+        env = {params[0]: SELF}
+        nd = len(a.defaults)
+        pre = Ev({})
+        for p_, d in zip(params[len(params) - nd:], a.defaults):
+            env[p_] = pre.ev(d)
+        for p_, v in zip(params[1:], args):
+            env[p_] = v
+        for k, v in (kwargs or {}).items():
+            if k not in params[1:]:
+                raise ExtractError("%s.%s: unknown keyword %s" % (self.cls.name, meth, k))
+            env[k] = v
+        missing = [p_ for p_ in params if p_ not in env]
+        if missing:
+            raise ExtractError("%s.%s: unbound parameters %s" % (self.cls.name, meth, missing))
+        ev = Ev(env)
+        is_gen = any(isinstance(x, (ast.Yield, ast.YieldFrom)) for x in walk(fn))
+        try:
+            ret = ev.run(fn.body)
+        except Raised:
+            # a generator that yielded and then raises still delivered those items: only a raise before any yield is a refusal
+            if ev.yields:
+                raise ExtractError("%s.%s(%s): raises after yielding" % (self.cls.name, meth, ", ".join(map(repr, args))))
+            return "raises"
+        except Unknown as e:
+            raise ExtractError("%s.%s(%s) not evaluable: %s" % (self.cls.name, meth, ", ".join(map(repr, args)), e))
+        if is_gen:
+            return ev.yields
+        try:
+            return Ev({}).iterate(ret, fn)
+        except Unknown:
+            raise ExtractError("%s.%s does not produce an iterable of (name, object) pairs" % (self.cls.name, meth))
+
+
+def iterated_set(stream):
+    """the attribute S such that the stream is exactly `(name, self._data[name]) for name in self.S`; otherwise a description of the stream."""
+    if stream == "raises":
+        return "<raises>"
+    if len(stream) == 1 and isinstance(stream[0], list) and len(stream[0]) == 2:
+        k = stream[0][0]
+        if isinstance(k, Sym) and k[0] == "elem" and stream[0] == _family(k[1]):
+            return k[1]
+    return "<%s>" % ", ".join(repr(y) for y in stream)
+
+
+def deref(fn, e, depth=0):
+    """follow a local Name through its single plain assignment in fn (alias `reg = self._node_reg`); other expressions are returned as is."""
+    if isinstance(e, ast.Name) and depth < 5:
+        defs = []
+        for n in walk(fn):
+            tg = n.targets if isinstance(n, ast.Assign) else ([n.target] if isinstance(n, (ast.AugAssign, ast.AnnAssign, ast.For, ast.NamedExpr)) else
+                                                              ([i.optional_vars for i in n.items if i.optional_vars is not None] if isinstance(n, ast.With) else []))
+            for t in tg:
+                if any(isinstance(x, ast.Name) and x.id == e.id for x in ast.walk(t)):
+                    defs.append(n)
+        if e.id not in [a.arg for a in fn.args.args] and len(defs) == 1 and isinstance(defs[0], ast.Assign) and len(defs[0].targets) == 1 \
+                and isinstance(defs[0].targets[0], ast.Name):
+            return deref(fn, defs[0].value, depth + 1)
+    return e
+
+
+def deletes_from(fn, node, reg):
+    """does this statement/expression delete a key from self.<reg>?  `self.<reg>.__delitem__(k)`, `del self.<reg>[k]`, `self.<reg>.pop(k)`
+    (MutableMapping.pop deletes through __delitem__), through a local alias of the registry as well."""
+    def is_reg(e):
+        return dotted(deref(fn, e)) == "self.%s" % reg
+    for n in walk(node):
+        if isinstance(n, ast.Call) and isinstance(n.func, ast.Attribute) and n.func.attr in ("__delitem__", "pop") and is_reg(n.func.value):
+            return True
+        if isinstance(n, ast.Call) and call_name(n) in ("operator.delitem", "delitem") and n.args and is_reg(n.args[0]):
+            return True
+        if isinstance(n, ast.Delete) and any(isinstance(t, ast.Subscript) and is_reg(t.value) for t in n.targets):
+            return True
+    return False
+
+
 def run(repo, chk):
     bases = class_bases(repo)
     reg_classes = {n: repo.cls(MODEL, n) for n in ("PatternRegistry", "CurveRegistry", "SourceRegistry", "NodeRegistry", "LinkRegistry")}
@@ -320,7 +600,7 @@ def run(repo, chk):
         fn = repo.func(MODEL, "WaterNetworkModel.%s" % meth)
         chk.fn(fn)
         stmts = flat_stmts(fn.body)
-        dels = [s for s in stmts if calls(s, attr="__delitem__") or isinstance(s, ast.Delete)]
+        dels = [s for s in stmts if calls(s, attr="__delitem__") or isinstance(s, ast.Delete) or any(deletes_from(fn, s, r_) for r_ in REG_ATTRS)]
         dels = [s for s in dels if not isinstance(s, (ast.If, ast.For, ast.Try))]
         rs = [s for s in stmts if isinstance(s, ast.Raise)]
         good = False
@@ -339,7 +619,7 @@ def run(repo, chk):
                         guard_req = True
                 q = p
             good = guard_force and guard_req and r0.lineno < min(d.lineno for d in dels)
-            same_reg = all(reg in unparse(d) for d in dels)
+            same_reg = all(deletes_from(fn, d, reg) for d in dels)
             chk.expect(same_reg, "R-C14-4", "WaterNetworkModel.%s deletes from %s" % (meth, reg), loc(fn, dels[0]))
         chk.expect(good, "R-C14-4", "WaterNetworkModel.%s refuses (unless force) when a control requires the element, before deleting" % meth, loc(fn),
                    "raise must be under `not force` and a `control.requires()` membership test and precede the registry deletion")
@@ -350,15 +630,16 @@ def run(repo, chk):
     for meth in ("remove_node", "remove_link"):
         fn = repo.func(MODEL, "WaterNetworkModel.%s" % meth)
         g = CFG(fn)
-        dels = g.calling("__delitem__")
+        reg = "_node_reg" if meth == "remove_node" else "_link_reg"
+        dels = g.nodes_where(lambda node, d, fn=fn, reg=reg: deletes_from(fn, node, reg))     # .__delitem__(k) / del reg[k] / alias
         rcs = g.calling("remove_control")
         idom = g.dominators()
         for rc in rcs:
             chk.expect(any(g.dominates(d, rc, idom) for d in dels), "R-C14-4b", "WaterNetworkModel.%s removes the element's controls only after the registry accepted the removal" % meth,
                        loc(fn, g.node_ast(rc)), "with_control=True deletes the controls and then the registry refuses because the element is still in use: the refused removal changed the model",
-                       expected="remove_control dominated by %s.__delitem__" % ("_node_reg" if meth == "remove_node" else "_link_reg"), found=g.label(rc))
+                       expected="remove_control dominated by %s.__delitem__" % reg, found=g.label(rc))
         if not rcs or not dels:
-            raise AnchorError("WaterNetworkModel.%s: remove_control / __delitem__ calls not found" % meth)
+            raise AnchorError("WaterNetworkModel.%s: remove_control / deletion from self.%s not found" % (meth, reg))
     # R-C14-7: no partial registration: in Link.__init__ every registry lookup that can raise precedes the first add_usage
     li = repo.func(BASE, "Link.__init__")
     chk.fn(li)
@@ -470,18 +751,11 @@ def run(repo, chk):
         raise AnchorError("%s.%s does not return a set attribute" % (regcls.name, attr))
 
     def reg_iter_set(regcls, meth):
-        fn = repo.methods(regcls).get(meth)
-        if fn is None:
-            raise AnchorError("%s.%s vanished" % (regcls.name, meth))
-        fors = [n for n in walk(fn) if isinstance(n, ast.For)]
-        if len(fors) != 1:
-            raise AnchorError("%s.%s: expected one loop" % (regcls.name, meth))
-        d = dotted(fors[0].iter)
-        ys = [n for n in walk(fors[0]) if isinstance(n, ast.Yield)]
-        ok_y = ys and isinstance(ys[0].value, ast.Tuple) and "self._data[" in unparse(ys[0].value.elts[1])
-        if not (d and d.startswith("self.") and ok_y):
-            raise AnchorError("%s.%s: unexpected iterator shape" % (regcls.name, meth))
-        return d[5:]
+        """the set S such that the generator produces exactly (name, self._data[name]) for name in self.S (abstract execution)."""
+        got = iterated_set(GenEval(repo, regcls).stream(meth))
+        if got.startswith("<"):
+            raise AnchorError("%s.%s: does not iterate one typed set as (name, self._data[name]): %s" % (regcls.name, meth, got))
+        return got
 
     kinds = [("junction", "_node_reg", "NodeRegistry"), ("tank", "_node_reg", "NodeRegistry"), ("reservoir", "_node_reg", "NodeRegistry")]
     kinds += [(k, "_link_reg", "LinkRegistry") for k in ("pipe", "pump", "valve", "head_pump", "power_pump", "prv", "psv", "pbv", "tcv", "fcv", "gpv")]
@@ -520,13 +794,17 @@ def run(repo, chk):
         fn = repo.methods(reg_classes[rcn]).get("__call__")
         if fn is None:
             raise AnchorError("%s.__call__ vanished" % rcn)
-        got = {}
-        for n in walk(fn):
-            if isinstance(n, ast.If) and isinstance(n.test, ast.Compare) and isinstance(n.test.comparators[0], ast.Name):
-                fors = [x for x in n.body if isinstance(x, ast.For)]
-                if fors:
-                    got[n.test.comparators[0].id] = (dotted(fors[0].iter) or "")[5:]
-        chk.expect(got == table, "R-C14-5", "%s.__call__(type) iterates the typed set of that type" % rcn, loc(fn), expected=table, found=got)
+        chk.fn(fn)
+        # abstract execution of the generator for each concrete type argument: which container's names are yielded with their objects
+        from ..peval import Obj
+        ge = GenEval(repo, reg_classes[rcn])
+        got = {t: iterated_set(ge.stream("__call__", [Obj(t)])) for t in sorted(table)}
+        chk.expect(got == table, "R-C14-5", "%s.__call__(type) iterates the typed set of that type" % rcn, loc(fn),
+                   "wn.nodes(T) / wn.links(T) must yield (name, self._data[name]) for exactly the names in the typed set of T",
+                   expected=table, found=got)
+        allv = iterated_set(ge.stream("__call__", []))
+        chk.expect(allv == "_data", "R-C14-5", "%s.__call__() iterates the primary store" % rcn, loc(fn),
+                   "wn.nodes() / wn.links() without a type must yield every element of _data", expected="_data", found=allv)
     # __setitem__ type dispatch: isinstance(value, T) -> set of T
     want = {"Junction": "_junctions", "Tank": "_tanks", "Reservoir": "_reservoirs", "Pipe": "_pipes", "Pump": "_pumps", "HeadPump": "_head_pumps",
             "PowerPump": "_power_pumps", "Valve": "_valves", "PRValve": "_prvs", "PSValve": "_psvs", "PBValve": "_pbvs", "TCValve": "_tcvs",
@@ -671,6 +949,38 @@ WITNESSES = [
     dict(name="end-node-setter-no-remove", file=BASE,
          old="            self._node_reg.remove_usage(self.end_node_name, (self._link_name, self.link_type))\n", new="            pass\n", rule="R-C14-5"),
     dict(name="refusal-swallowed", file=MODEL, old="            return link\n        except KeyError:", new="            return link\n        except (KeyError, RuntimeError):", rule="R-C14-4"),
+    # ---- typed iterators: the rule follows what is iterated, not the if/elif-with-a-loop-per-branch shape
+    dict(name="call-dispatch-wrong-set", file=MODEL, old="        elif node_type == Tank:\n            for node_name in self._tanks:\n",
+         new="        elif node_type == Tank:\n            for node_name in self._junctions:\n", rule="R-C14-5"),
+    dict(name="call-dispatch-foreign-object", file=MODEL, old="            for name in self._pumps:\n                yield name, self._data[name]\n        elif link_type == Valve:",
+         new="            for name in self._pumps:\n                yield name, self._usage[name]\n        elif link_type == Valve:", rule="R-C14-5"),
+    dict(name="call-all-iterates-subset", file=MODEL, old="        if link_type == None:\n            for name, node in self._data.items():\n                yield name, node\n",
+         new="        if link_type == None:\n            for name in self._pipes:\n                yield name, self._data[name]\n", rule="R-C14-5"),
+    dict(name="call-select-then-loop-wrong-set", file=MODEL,
+         old="        elif link_type == Pipe:\n            for name in self._pipes:\n                yield name, self._data[name]\n        elif link_type == Pump:\n            for name in self._pumps:\n                yield name, self._data[name]\n        elif link_type == Valve:\n            for name in self._valves:\n                yield name, self._data[name]\n        else:\n            raise RuntimeError(\"link_type, \" + str(link_type) + \", not recognized.\")\n",
+         new="            return\n        if link_type == Pipe:\n            typed = self._pipes\n        elif link_type == Pump:\n            typed = self._head_pumps\n        elif link_type == Valve:\n            typed = self._valves\n        else:\n            raise RuntimeError(\"link_type, \" + str(link_type) + \", not recognized.\")\n        for link_name in typed:\n            yield link_name, self._data[link_name]\n",
+         rule="R-C14-5"),
+    dict(name="call-select-then-loop-preserving", file=MODEL,
+         old="        elif link_type == Pipe:\n            for name in self._pipes:\n                yield name, self._data[name]\n        elif link_type == Pump:\n            for name in self._pumps:\n                yield name, self._data[name]\n        elif link_type == Valve:\n            for name in self._valves:\n                yield name, self._data[name]\n        else:\n            raise RuntimeError(\"link_type, \" + str(link_type) + \", not recognized.\")\n",
+         new="            return\n        if link_type == Pipe:\n            typed = self._pipes\n        elif link_type == Pump:\n            typed = self._pumps\n        elif link_type == Valve:\n            typed = self._valves\n        else:\n            raise RuntimeError(\"link_type, \" + str(link_type) + \", not recognized.\")\n        for link_name in typed:\n            yield link_name, self._data[link_name]\n",
+         silent=True),
+    dict(name="call-dict-dispatch-preserving", file=MODEL,
+         old="        elif node_type == Junction:\n            for node_name in self._junctions:\n                yield node_name, self._data[node_name]\n        elif node_type == Tank:\n            for node_name in self._tanks:\n                yield node_name, self._data[node_name]\n        elif node_type == Reservoir:\n            for node_name in self._reservoirs:\n                yield node_name, self._data[node_name]\n        else:\n            raise RuntimeError(\"node_type, \" + str(node_type) + \", not recognized.\")\n",
+         new="        else:\n            table = {Junction: self._junctions, Tank: self._tanks, Reservoir: self._reservoirs}\n            if node_type not in table:\n                raise RuntimeError(f\"node_type, {node_type}, not recognized.\")\n            yield from ((n, self._data[n]) for n in table[node_type])\n",
+         silent=True),
+    dict(name="typed-generator-delegates-preserving", file=MODEL, old="        for node_name in self._tanks:\n            yield node_name, self._data[node_name]\n\n",
+         new="        obj = self._data\n        for node_name in list(self._tanks):\n            pair = (node_name, obj[node_name])\n            yield pair\n\n", silent=True),
+    dict(name="typed-generator-via-call-preserving", file=MODEL, old="        for node_name in self._reservoirs:\n            yield node_name, self._data[node_name]\n\n",
+         new="        return self(Reservoir)\n\n", silent=True),
+    # ---- remove_node / remove_link: the registry deletion is recognised in every spelling
+    dict(name="del-statement-preserving", file=MODEL, old="        self._node_reg.__delitem__(name)\n        if not force and with_control:\n            for i in x:\n                self.remove_control(i)\n",
+         new="        del self._node_reg[name]\n        if not force and with_control:\n            for control_name in x:\n                self.remove_control(control_name)\n", silent=True),
+    dict(name="del-through-alias-preserving", file=MODEL, old="        self._link_reg.__delitem__(name)\n        if not force and with_control:\n",
+         new="        registry = self._link_reg\n        del registry[name]\n        if not force and with_control:\n", silent=True),
+    dict(name="controls-removed-before-del-statement", file=MODEL, old="        self._link_reg.__delitem__(name)\n        if not force and with_control:\n            for i in x:\n                self.remove_control(i)\n",
+         new="        if not force and with_control:\n            for i in x:\n                self.remove_control(i)\n        del self._link_reg[name]\n", rule="R-C14-4b"),
+    dict(name="remove-node-deletes-from-other-registry", file=MODEL, old="        self._node_reg.__delitem__(name)\n        if not force and with_control:\n",
+         new="        del self._link_reg[name]\n        if not force and with_control:\n", rule="R-C14-4"),
     dict(name="rename-local-preserving", file=MODEL, old="            node = self._data.pop(key)\n            self._junctions.discard(key)",
          new="            node = self._data.pop(key)\n            self._junctions.discard(key)\n            _n = node", silent=True),
 ]
